@@ -18,10 +18,13 @@ struct Item {
 struct DequeModel {
   using State = std::vector<int64_t>; // front = top (oldest), back = bottom
   int64_t fixed_capacity = -1;
+  bool weak = false; // C03: under weak executions failed operations of worker threads are not judged (see QueueModel)
   static void serialize(const State& s, std::string& out) {
     out.append(reinterpret_cast<const char*>(s.data()), s.size() * sizeof(int64_t));
   }
   bool apply(State& s, const OpRec& op) const {
+    if (weak && !op.r && op.thread != 0)
+      return true;
     switch (op.kind) {
     case D_PUSH:
       if (op.r) {
@@ -263,6 +266,7 @@ void run_deque(const ExecCtx& ctx, ExecOut& out) {
   }
   DequeModel model;
   model.fixed_capacity = FixedCap;
+  model.weak = ctx.weak;
   WglResult wr = wgl_check(h, model, DequeModel::State{});
   counters().add("wgl_nodes", wr.nodes);
   if (wr.verdict == V_INCONCLUSIVE) {
